@@ -96,9 +96,24 @@ func (c *MonitorConfig) names() []string {
 	res := make([]string, 0)
 
 	if c.NameSelector != nil {
-		res = c.NameSelector.MatchNames
+		res = uniqueNames(c.NameSelector.MatchNames)
 	}
 
+	return res
+}
+
+// uniqueNames removes repeated names: one informer per name is enough,
+// two informers for one object would list it twice in snapshots.
+func uniqueNames(names []string) []string {
+	res := make([]string, 0, len(names))
+	seen := make(map[string]struct{}, len(names))
+	for _, name := range names {
+		if _, ok := seen[name]; ok {
+			continue
+		}
+		seen[name] = struct{}{}
+		res = append(res, name)
+	}
 	return res
 }
 
@@ -127,7 +142,7 @@ func (c *MonitorConfig) namespaces() []string {
 		return []string{""}
 	}
 
-	return c.NamespaceSelector.NameSelector.MatchNames
+	return uniqueNames(c.NamespaceSelector.NameSelector.MatchNames)
 }
 
 func (c *MonitorConfig) WithMode(mode kemtypes.KubeEventMode) {
